@@ -1305,6 +1305,11 @@ class WorkflowConductor(object):
                 if k in self._collapse_task_rerun_requests(tasks)
             }
 
+        # If there is no task to rerun and no task left to run, then there is nothing to do.
+        # Leave the workflow as is instead of resuming it with no way to complete again.
+        if not rerunnable_candidates and not self.workflow_state.has_staged_tasks:
+            return
+
         # Keep record of which task sequence(s) is being rerun in the workflow state.
         rerun_entry = [i for i, t in rerunnable_candidates.values()]
         self.workflow_state.reruns.append(rerun_entry)
